@@ -718,22 +718,26 @@ pub fn net_event(a: &Args, grams: &[(String, Vec<u8>)]) -> Value {
     };
     let (responder, discovery, tx) = match setup {
         Ok(Ok(x)) => x,
-        Ok(Err(why)) => return json!({"ev": "NetRun", "cls": "net inconclusive", "sent": 0, "panics": [], "usable": "inconclusive", "answered": "inconclusive", "answered_discovery": "inconclusive", "answered_async": "inconclusive", "answered_async_discovery": "inconclusive", "async_usable": "inconclusive", "resolver": [], "note": why}),
-        Err(at) => return json!({"ev": "NetRun", "cls": "net setup", "sent": 0, "panics": [at], "usable": "inconclusive", "answered": "inconclusive", "answered_discovery": "inconclusive", "answered_async": "inconclusive", "answered_async_discovery": "inconclusive", "async_usable": "inconclusive", "resolver": [], "note": "panic during setup"}),
+        Ok(Err(why)) => return json!({"ev": "NetRun", "cls": "net inconclusive", "sent": 0, "panics": [], "usable": "inconclusive", "answered": "inconclusive", "answered_discovery": "inconclusive", "answered_async": "inconclusive", "answered_async_discovery": "inconclusive", "async_usable": "inconclusive", "resolver": [], "replies": [], "note": why}),
+        Err(at) => return json!({"ev": "NetRun", "cls": "net setup", "sent": 0, "panics": [at], "usable": "inconclusive", "answered": "inconclusive", "answered_discovery": "inconclusive", "answered_async": "inconclusive", "answered_async_discovery": "inconclusive", "async_usable": "inconclusive", "resolver": [], "replies": [], "note": "panic during setup"}),
     };
     std::thread::sleep(Duration::from_millis(300));
     let target = "224.0.0.251:5353";
     // a probe: a valid unicast-response query; answered iff a reply with our id comes back
+    // every reply that comes back to a probe is recorded: [probe id, length, parses]
+    let replies: std::cell::RefCell<Vec<Value>> = std::cell::RefCell::new(vec![]);
     let probe = |name: &str, qtype: simple_dns::QTYPE, id: u16, tries: usize| -> bool {
         let mut q = Packet::new_query(id);
         q.questions.push(simple_dns::Question::new(Name::new_unchecked(name).into_owned(), qtype, CLASS::IN.into(), true));
         let qb = q.build_bytes_vec().unwrap();
         for _ in 0..tries {
             let _ = tx.send_to(&qb, target);
-            let mut buf = [0u8; 9000];
+            let mut buf = vec![0u8; 65535];
             for _ in 0..4 {
                 if let Ok((n, _)) = tx.recv_from(&mut buf) {
                     if header_buffer::id(&buf[..n]).ok() == Some(id) && header_buffer::has_flags(&buf[..n], PacketFlag::RESPONSE).unwrap_or(false) {
+                        let parses = matches!(guarded(|| Packet::parse(&buf[..n]).is_ok()), Ok(true));
+                        replies.borrow_mut().push(json!([id, n, parses]));
                         return true;
                     }
                 } else {
@@ -751,6 +755,44 @@ pub fn net_event(a: &Args, grams: &[(String, Vec<u8>)]) -> Value {
     let before_discovery = probe(&sname, simple_dns::QTYPE::ANY, 0x7702, 3);
     let before_aresponder = async_services.is_some() && probe(&arname, simple_dns::TYPE::A.into(), 0x7711, 3);
     let before_adiscovery = async_services.is_some() && probe(&asname, simple_dns::QTYPE::ANY, 0x7712, 3);
+    // big replies: one legal query that repeats the same question many times (each is answered separately), so
+    // that the reply is larger than any buffer size a sender may assume (> 9000 bytes); whatever comes back on
+    // the wire must be a parseable message
+    let big_probe = |name: &str, qtype: simple_dns::QTYPE, id: u16, count: usize| {
+        let mut q = Packet::new_query(id);
+        for _ in 0..count {
+            q.questions.push(simple_dns::Question::new(Name::new_unchecked(name).into_owned(), qtype, CLASS::IN.into(), true));
+        }
+        let qb = match guarded(|| q.build_bytes_vec_compressed()) {
+            Ok(Ok(b)) if b.len() <= 9000 => b,
+            _ => return,
+        };
+        let _ = tx.send_to(&qb, target);
+        let mut buf = vec![0u8; 65535];
+        for _ in 0..3 {
+            if let Ok((n, _)) = tx.recv_from(&mut buf) {
+                if header_buffer::id(&buf[..n]).ok() == Some(id) && header_buffer::has_flags(&buf[..n], PacketFlag::RESPONSE).unwrap_or(false) {
+                    let parses = matches!(guarded(|| Packet::parse(&buf[..n]).is_ok()), Ok(true));
+                    replies.borrow_mut().push(json!([id, n, parses]));
+                    break;
+                }
+            } else {
+                break;
+            }
+        }
+    };
+    if before_responder {
+        big_probe(&rname, simple_dns::TYPE::A.into(), 0x7721, 900);
+    }
+    if before_discovery {
+        big_probe(&sname, simple_dns::QTYPE::ANY, 0x7722, 200);
+    }
+    if before_aresponder {
+        big_probe(&arname, simple_dns::TYPE::A.into(), 0x7723, 900);
+    }
+    if before_adiscovery {
+        big_probe(&asname, simple_dns::QTYPE::ANY, 0x7724, 200);
+    }
     // the one-shot resolver (sync flavour) keeps resolving the responder's name while the hostile datagrams fly;
     // responses carrying its query id (0) reach its parsing code
     let resolver_name = rname.clone();
@@ -949,5 +991,5 @@ pub fn net_event(a: &Args, grams: &[(String, Vec<u8>)]) -> Value {
     let panics: Vec<String> = FOREIGN_PANICS.lock().map(|v| v.clone()).unwrap_or_default();
     json!({"ev": "NetRun", "cls": "net responder+discovery", "sent": sent, "panics": panics, "usable": usable, "answered": answered,
         "answered_discovery": answered_discovery, "answered_async": answered_async, "answered_async_discovery": answered_async_discovery,
-        "async_usable": async_usable, "resolver": resolver_outcomes, "note": ""})
+        "async_usable": async_usable, "resolver": resolver_outcomes, "replies": replies.into_inner(), "note": ""})
 }
